@@ -200,6 +200,36 @@ fn c08_send_iovec_all_bounded_thorough() {
     core::mem::forget(e);
 }
 
+// quick-tier variant: a 2-byte message accepted one byte at a time — descriptors go out with the first byte only
+static mut ONE_CALLS: usize = 0;
+static mut ONE_FD_CALLS: usize = 0;
+static mut ONE_FD_FIRST: bool = false;
+fn stub_send_iovec_one_byte<H: MsgHeader>(_s: &mut Endpoint<H>, iovs: &[&[u8]], fds: Option<&[RawFd]>) -> Result<usize> {
+    unsafe {
+        if fds.is_some() { ONE_FD_CALLS += 1; if ONE_CALLS == 0 { ONE_FD_FIRST = true; } }
+        ONE_CALLS += 1;
+        let mut total = 0; let mut i = 0;
+        while i < iovs.len() { total += iovs[i].len(); i += 1; }
+        Ok(if total > 0 { 1 } else { 0 })
+    }
+}
+#[kani::proof]
+#[kani::stub(Endpoint::<H>::send_iovec, stub_send_iovec_one_byte)]
+#[kani::unwind(5)]
+fn c08_c01_send_iovec_all_fds_first_byte_only_bounded() {
+    let mut e = ep();
+    let data: [u8; 2] = kani::any();
+    let iovs: [&[u8]; 1] = [&data[..]];
+    let fds = [7 as RawFd];
+    let r = e.send_iovec_all(&iovs[..], Some(&fds[..]));
+    unsafe {
+        assert!(matches!(r, Ok(2)));
+        assert!(ONE_CALLS == 2);                              // two partial writes
+        assert!(ONE_FD_CALLS == 1 && ONE_FD_FIRST);           // descriptors attached to the first one only
+    }
+    core::mem::forget(e);
+}
+
 // ================================================================== receive side
 // ---- model of recv_into_iovec_all for the framing functions: delivers any n <= total bytes (arbitrary content)
 static mut R_N: usize = 0;
@@ -344,6 +374,40 @@ fn c08_c09_recv_into_iovec_all_bounded_thorough() {
             }
             assert!(closed_count(202) <= 4);
         }
+    }
+    core::mem::forget(e);
+}
+
+// quick-tier variant: two bytes delivered one at a time; the first chunk carries a descriptor, the second may carry another
+static mut OB_CALLS: usize = 0;
+static mut OB_SECOND_FD: bool = false;
+unsafe fn stub_recv_into_iovec_one_byte<H: MsgHeader>(_s: &mut Endpoint<H>, iovs: &mut [iovec]) -> Result<(usize, Option<Vec<File>>)> {
+    OB_CALLS += 1;
+    *(iovs[0].iov_base as *mut u8) = OB_CALLS as u8;
+    let files = if OB_CALLS == 1 { Some(vec![File::from_raw_fd(201)]) }
+                else if OB_SECOND_FD { Some(vec![File::from_raw_fd(202)]) } else { None };
+    Ok((1, files))
+}
+#[kani::proof]
+#[kani::stub(Endpoint::<H>::recv_into_iovec, stub_recv_into_iovec_one_byte)]
+#[kani::stub(<std::os::fd::OwnedFd as std::ops::Drop>::drop, ledger_drop)]
+#[kani::unwind(5)]
+fn c08_c09_c03_recv_all_keeps_first_chunk_fds_bounded() {
+    let mut e = ep();
+    unsafe { OB_SECOND_FD = kani::any(); }
+    let mut a = [0u8; 2];
+    let mut iovs = [iovec { iov_base: a.as_mut_ptr() as *mut c_void, iov_len: 2 }];
+    let r = unsafe { e.recv_into_iovec_all(&mut iovs[..]) };
+    match r {
+        Ok((n, files)) => {
+            assert!(n == 2 && a[0] == 1 && a[1] == 2);                    // same bytes whatever the segmentation
+            match files {
+                Some(v) => { assert!(v.len() == 1 && v[0].as_raw_fd() == 201); core::mem::forget(v); }   // the message's descriptors survive later segments
+                None => assert!(false),
+            }
+            unsafe { assert!(closed_count(201) == 0); if OB_SECOND_FD { assert!(closed_count(202) == 1); } }   // stray later descriptors are closed, not leaked
+        }
+        Err(_) => assert!(false),
     }
     core::mem::forget(e);
 }
